@@ -714,3 +714,40 @@ pub fn pkg_bytes(p: &rpm::Package) -> Result<Vec<u8>, rpm::Error> {
     p.write(&mut v)?;
     Ok(v)
 }
+
+
+/// A key pair generated at run time whose PRIMARY key certifies and whose SUBKEY signs (none of the
+/// repository's test keys has a signing subkey, so the subkey branch of the verifier is otherwise
+/// never taken). Both are Ed25519 (legacy EdDSA packets, which is what the library supports).
+pub struct SubKeyPair {
+    pub primary: Key,
+    pub sub_signer: rpm::signature::pgp::Signer<pgp::SignedSecretSubKey>,
+    pub sub_id: String,
+}
+
+pub fn generate_key_with_signing_subkey() -> Result<SubKeyPair, String> {
+    use pgp::composed::{KeyType, SecretKeyParamsBuilder, SubkeyParamsBuilder};
+    use pgp::types::PublicKeyTrait;
+    let mut rng = rand::thread_rng();
+    let sub = SubkeyParamsBuilder::default().key_type(KeyType::EdDSALegacy).can_sign(true).passphrase(None).build().map_err(|e| e.to_string())?;
+    let params = SecretKeyParamsBuilder::default()
+        .key_type(KeyType::EdDSALegacy)
+        .can_certify(true)
+        .can_sign(true)
+        .primary_user_id("verification harness <harness@example.org>".into())
+        .passphrase(None)
+        .subkey(sub)
+        .build()
+        .map_err(|e| e.to_string())?;
+    let secret = params.generate(&mut rng).map_err(|e| e.to_string())?;
+    let signed = secret.sign(&mut rng, || String::new()).map_err(|e| e.to_string())?;
+    let secret_asc = signed.to_armored_bytes(None.into()).map_err(|e| e.to_string())?;
+    let subkey = signed.secret_subkeys.first().cloned().ok_or("no subkey generated")?;
+    let sub_id = hex::encode(subkey.key_id().as_ref());
+    let public: pgp::SignedPublicKey = signed.into();
+    let public_asc = public.to_armored_bytes(None.into()).map_err(|e| e.to_string())?;
+    let signer = rpm::signature::pgp::Signer::load_from_asc_bytes(&secret_asc).map_err(|e| format!("generated secret key: {e}"))?;
+    let verifier = rpm::signature::pgp::Verifier::load_from_asc_bytes(&public_asc).map_err(|e| format!("generated public key: {e}"))?;
+    let sub_signer = rpm::signature::pgp::Signer::new(subkey).map_err(|e| format!("subkey signer: {e}"))?;
+    Ok(SubKeyPair { primary: Key { name: "generated-ed25519", signer, verifier, public_asc }, sub_signer, sub_id })
+}
